@@ -89,7 +89,7 @@ def run_shard(spec):
 
     def after(ctx, rng, desc):
         from vf import scen
-        regions = gen_regions(rng, code=scen.CODE)
+        regions = gen_regions(rng, code=int(desc['code'], 16) if 'code' in desc else scen.CODE)
         program(ctx.cpu, regions, m=1, br=rng.randrange(2))
         if ctx.cfg['arch_version'] >= 7:
             ctx.cpu.registers.sctlr.u = 1
@@ -97,9 +97,15 @@ def run_shard(spec):
         # point some registers at the programmed boundaries
         r = ctx.cpu.registers
         addrs = interesting_addresses(rng, [x for x in regions if x[4]][:6])
-        for n in range(13):
+        for n in range(14):
             if rng.random() < 0.6:
-                r.set(n, rng.choice(addrs) & ~rng.choice([0, 0, 3]))
+                v = rng.choice(addrs)
+                if rng.random() < 0.3:
+                    v = (v & ~3) - 4 * rng.randrange(0, 9)      # a boundary INSIDE a multi-word transfer that starts here
+                v &= ~rng.choice([0, 0, 3])
+                if n == 13:
+                    v &= ~3
+                r.set(n, v & 0xFFFFFFFF)
 
     def keyfn(key, info, diffs):
         return key + ('|abort-' + info['abort'] if info.get('abort') else '')
